@@ -521,6 +521,10 @@ DIRECTED = [
     [dict(_p(), **{'async': [4, 'done', 6]}), dict(_p(), **{'async': [20, 'done', 10]})],
     [dict(_p(), **{'async': [8, 'done', 10]}), dict(_p(), **{'async': [12, 'done', 14]}),
      dict(_p(), **{'async': [20, 'done', 18]})],
+    # a block without any source of its own gets an event that does not set its output: it stays
+    # uninitialised and the start-up fails (in both creation orders)
+    [_p(regular='sets', dests=[1]), _p(hsets=False)],
+    [_p(initdef=True, dests=[1]), _p(hsets=False), _p(regular='sets')],
     # a restored state feeds an event back into the restoring block
     [_p(persistent=True, restore='sets', dests=[1]), _p(dests=[0])],
     [_p(persistent=True, restore='sets', dests=[1]), _p(regular='sets', dests=[0, 2]), _p(dests=[0])],
